@@ -557,6 +557,52 @@ def r06_7(prog, tab, rid="R06.7"):
     return r
 
 
+def r06_8(prog, tab):
+    """Whether the last octet of a BIT STRING is masked does not depend on what is in it.  The mask of the used bits,
+    `0xff << bits_unused`, is for *writing* the last octet (`b = last & mask`, `last &= mask`).  In the functions
+    reachable from the encoder slots it never appears inside a branch condition: a test like
+    `if(last & (0xff << bits_unused)) fix_last_byte = 1;` skips the masking exactly when all used bits of the last octet
+    are zero, and the garbage of the unused bits goes out."""
+    r = Rule("R06.8", "in the encoders the used-bits mask `0xff << bits_unused` is applied to what is written, never used to decide whether to mask", floor=2)
+    cg = prog.callgraph()
+    scope = cg.reachable(common.slot_functions(prog, common.ENCODER_SLOTS))
+
+    def mk_is_mask(derived):
+        def is_mask(nd):
+            return (isinstance(nd, list) and nd and nd[0] == "bin" and nd[1] == "<<" and const_of(nd[2]) == 0xff
+                    and any((m[0] == "member" and m[2] == "bits_unused") or (m[0] == "var" and m[1] in derived) for m in walk(nd[3])))
+        return is_mask
+    for k in sorted(scope):
+        f = prog.funcs[k]
+        n = 0
+        derived = set()
+        for b, i, e in f.events():
+            tr = (e.get("init") or e.get("rhs") or {}).get("tree") if e["k"] in ("decl", "assign") else None
+            vid = e.get("id") if e["k"] == "decl" else (strip_casts(e["lhs_tree"])[1] if e["k"] == "assign" and is_var(e.get("lhs_tree")) else None)
+            if tr is not None and vid and any(m[0] == "member" and m[2] == "bits_unused" for m in walk(tr)):
+                derived.add(vid)
+        is_mask = mk_is_mask(derived)
+        for b in f.blocks.values():
+            if b.term and "cond" in b.term:
+                ct = b.term["cond"].get("full_tree") or b.term["cond"]["tree"]
+                for nd in walk(ct):
+                    if is_mask(nd):
+                        n += 1
+                        r.bad(f, "mask-in-condition#%d" % n, "`%s` decides a branch: the last octet is masked (or not) depending on its own used bits, so a "
+                                                              "value whose used bits are all zero keeps the garbage of its unused bits" % tree_text(ct)[:70], b.term.get("line"))
+        for b, i, e in f.events():
+            trees = []
+            if e["k"] in ("assign", "decl"):
+                trees = [(e.get("rhs") or e.get("init") or {}).get("tree")]
+            elif e["k"] == "call":
+                trees = [a.get("tree") for a in e.get("args", [])]
+            for t in trees:
+                if t is not None and any(is_mask(nd) for nd in walk(t)):
+                    n += 1
+                    r.ok(f, "mask-applied#%d" % n, "the mask is applied to a value that is stored or written", e.get("line"))
+    return r
+
+
 def _reaches(f, cb, b):
     return b.id in f.reachable_from([cb.id])
 
@@ -564,7 +610,7 @@ def _reaches(f, cb, b):
 def run(ctx):
     prog = ctx.prog("S")
     tab = load_tables("c06")
-    return [r06_1(prog, tab), r06_1b(prog, tab), r06_1c(prog, tab), r06_2(prog, tab), r06_3(prog, tab), r06_4(prog, tab), r06_4b(prog, tab), r06_5(prog, tab), r06_6(prog, tab), r06_7(prog, tab)]
+    return [r06_1(prog, tab), r06_1b(prog, tab), r06_1c(prog, tab), r06_2(prog, tab), r06_3(prog, tab), r06_4(prog, tab), r06_4b(prog, tab), r06_5(prog, tab), r06_6(prog, tab), r06_7(prog, tab), r06_8(prog, tab)]
 
 
 def thorough(ctx):
